@@ -810,11 +810,42 @@ func runG7(p *an.Prog, r *an.Result) {
 		konst, node string
 	}{{"TextTokenType", "ASTText"}, {"ObjTokenType", "ASTObject"}, {"TrimLeftTokenType", "ASTTrim"}, {"TrimRightTokenType", "ASTTrim"}}
 	// blocks that append a node of a given AST type to a node list
+	// closures of the parser that append their parameter to a node list (emit(n))
+	appenders := map[*ssa.Function]int{}
+	for _, uf := range unitOf(fn) {
+		if uf == fn {
+			continue
+		}
+		for i, par := range uf.Params {
+			if paramAppend(par) != nil {
+				appenders[uf] = i
+			}
+		}
+	}
+	isNodeOf := func(v ssa.Value, node string) bool {
+		for _, o := range an.Origins(v, func(v ssa.Value) []ssa.Value {
+			if mi, ok := v.(*ssa.MakeInterface); ok {
+				return []ssa.Value{mi.X}
+			}
+			return an.StepValue(v)
+		}) {
+			if pt, ok := o.Type().Underlying().(*types.Pointer); ok && isNamedIn(pt.Elem(), "parser", node) {
+				return true
+			}
+		}
+		return false
+	}
 	appends := func(node string) map[*ssa.BasicBlock]bool {
 		out := map[*ssa.BasicBlock]bool{}
 		an.EachInstr(fn, func(in ssa.Instruction) {
 			c, ok := in.(*ssa.Call)
 			if !ok {
+				return
+			}
+			if callee := c.Call.StaticCallee(); callee != nil {
+				if i, isApp := appenders[callee]; isApp && i < len(c.Call.Args) && isNodeOf(c.Call.Args[i], node) {
+					out[c.Block()] = true
+				}
 				return
 			}
 			if b, ok := c.Call.Value.(*ssa.Builtin); !ok || b.Name() != "append" || len(c.Call.Args) != 2 {
